@@ -63,6 +63,10 @@ theorem C14h_accepted (cap fuel : Nat) (h : List Obs) (ha : model.acceptsH cap f
     monC14h.accepts h = true :=
   acceptedH_satisfies model (fun h => monC14h.accepts h = true) C14h_obs cap fuel h ha
 
+theorem C14w_accepted (cap fuel : Nat) (h : List Obs) (ha : model.acceptsH cap fuel h = true) :
+    monC14w.accepts h = true :=
+  acceptedH_satisfies model (fun h => monC14w.accepts h = true) C14w_obs cap fuel h ha
+
 theorem C14bo_accepted (cap fuel : Nat) (h : List Backoff.Obs) (ha : Backoff.model.accepts cap fuel h = true) :
     Backoff.monC14bo.accepts h = true :=
   accepted_satisfies Backoff.model (fun h => Backoff.monC14bo.accepts h = true) Backoff.C14bo_obs cap fuel h ha
